@@ -455,6 +455,8 @@ type Query struct {
 	Grouped bool     `json:"grouped,omitempty"`
 	Member  *Sub     `json:"member,omitempty"` // arguments of the rendered _group selection (grouped only)
 	Aggs    []Agg    `json:"aggs,omitempty"`   // top-level aggregates (rows) or per-group aggregates (grouped)
+	// Siblings marks a query whose _group consumers were generated as almost-equal siblings.
+	Siblings bool `json:"siblings,omitempty"`
 }
 
 const rowSel = "k s i f b t"
